@@ -264,7 +264,13 @@ int verif_case(const uint8_t *tape, size_t tlen, Info *info) {
         ref::Msg outer;
         simh::parse(d, &outer);
         size_t pl = outer.payload.size();
-        if (t.flag()) outer.payload[pl - 1 - t.range(0, 7)] ^= (uint8_t)(1u << t.range(0, 7));
+        uint8_t how = t.u8();
+        if ((how & 6) == 6) {
+          // cut short: nothing, less than or exactly an AEAD tag, or just some bytes missing
+          size_t nl = (how & 8) ? t.range(0, 8) : t.range(0, (uint32_t)pl - 1);
+          outer.payload.resize(nl);
+          info->label(nl <= 8 ? "forgery:ciphertext-not-longer-than-a-tag" : "forgery:truncated");
+        } else if (how & 1) outer.payload[pl - 1 - t.range(0, 7)] ^= (uint8_t)(1u << t.range(0, 7));
         else outer.payload[t.range(0, (uint32_t)pl - 9)] ^= (uint8_t)(1u << t.range(0, 7));
         d = ref::encode(outer, ref::F_UDP);
         did_forgery = true;
